@@ -29,25 +29,43 @@ META = {
                   "two adjacent versions). Gated histories (hook ring.VerifYield between computing a shard and filling the cache) park a "
                   "reader, deliver an update of every kind, release it and re-ask: bound to QueryPlain/QueryLb, Update, Fill, so that the "
                   "cache fill is refused exactly when lastTopologyChange moved. Gossip histories feed the long-lived ring from a detached "
-                  "memberlist KV (local CAS, NotifyMsg, MergeRemoteState; values share token storage) and compare with a deep-copied fresh client.",
+                  "memberlist KV (local CAS, NotifyMsg, MergeRemoteState; values share token storage) and compare with a deep-copied fresh client. "
+                  "Extension 3: update classes that keep every aggregate an index could be keyed on while the assignment moves (two instances "
+                  "exchange tokens / zones / read-only flag+time / registration time, a zone is renamed, an instance hands its tokens to another, "
+                  "time stamps go backwards, to 0 or into the future; partitions exchange state+time or tokens, owners exchange partitions, "
+                  "several partition changes at once) - as named actions UpdSwap / UpdHandover checked exhaustively (MC_swap_*) with the negative "
+                  "control MC_neg_aggcompare (a RingCompare over the collection of records must be refuted) and as generator kinds of every "
+                  "history type incl. the gated ones; ring.Config.ExcludedZones (RingClientExcl.tla: the client holds Exclude(store), updates "
+                  "confined to excluded zones keep indexes and caches; negative control MC_neg_exclfast, witness MC_witness_hidden; one history "
+                  "in three runs with 1-2 excluded zones on the long-lived and the fresh client, the trace specification filters every "
+                  "delivered descriptor itself); clients started on a store that already has content (Get in starting); the watcher's "
+                  "delegate must be told exactly once per delivered value (ring held before, delivered descriptor); concurrent readers of the "
+                  "PartitionRingWatcher (ring, shards with/without look-back: the answer of the descriptor before or after the racing update) "
+                  "and more single-call concurrent instance-ring queries (GetInstance, GetInstanceState, token ranges, writable / zone counters, "
+                  "GetSubringForOperationStates, GetWithOptions); queries for absent identifiers, per-call RF below the configured one, buffers.",
     "level_note": "Exhaustive only within the small universes; the shard walk in the exhaustive configurations is an abstract model (one token "
                   "per instance, fixed start positions), real shards enter through the recorded traces. Trusted: TLC, the projection of "
                   "answers (harness/c13: instance records interned into a table; everything else compared as canonical strings), pointer "
                   "identity as the observation of a cache hit, uniqueness of lastTopologyChange stamps (the bubble clock is advanced between "
-                  "updates). InstanceDesc.Versions is outside the quantifier (DESIGN.md).",
+                  "updates). InstanceDesc.Versions is outside the quantifier (DESIGN.md). A mistake in the ExcludedZones filter that the long-lived "
+                  "and the fresh client share is seen only as a drift from the specification's counters / records (exit 2, not a violation). Not "
+                  "bound: a nil value delivered by the watch (key deleted: the clients keep their old ring - outside the quantifier), more than "
+                  "5 zones (heap path of findInstancesForKey), the test-only nil-cache branches.",
     "technique": "TLA+ specifications (RingClient.tla, PartitionClient.tla) model-checked by TLC; traces recorded from the real code validated "
                  "by TLC against the specifications' own actions (RingClientTrace.tla, PartitionClientTrace.tla)",
     "design_ref": "DESIGN.md 2 C13",
 }
 
 QUICK_I = ["MC_window_quick", "MC_live_quick"]
-QUICK_I2 = ["MC_topo_quick", "MC_keys_quick", "MC_conc_quick"]
+QUICK_I2 = ["MC_topo_quick", "MC_keys_quick", "MC_conc_quick", "MC_swap_quick"]
+QUICK_X = ["MC_excl_quick"]
 QUICK_P = ["MC_part_quick", "MC_partupd_quick"]
 THOROUGH_I = ["MC_window_thorough", "MC_live_thorough"]
-THOROUGH_I2 = ["MC_topo_thorough", "MC_keys_thorough", "MC_conc_thorough"]
+THOROUGH_I2 = ["MC_topo_thorough", "MC_keys_thorough", "MC_conc_thorough", "MC_swap_thorough"]
+THOROUGH_X = ["MC_excl_thorough"]
 THOROUGH_P = ["MC_part_thorough", "MC_partupd_thorough"]
 
-VIOLATION_CLASSES = {"answer", "concurrent"}   # the property itself, observed on the real code
+VIOLATION_CLASSES = {"answer", "concurrent", "delegate"}   # the property itself, observed on the real code
 # everything else ("counts", "faithful", "replay", "hit", "kind") means the specification, the projection or the
 # generator no longer describe the code: inconclusive, never a violation
 
@@ -57,18 +75,26 @@ def _tmo(t):
     return int(os.environ.get("VERIF_C13_TLC_TIMEOUT", "0")) or t
 
 
-WITNESSES = {"MC_witness_stalehit": "NeverStaleHit", "MC_witness_refused": "NeverRefusedFill",
-             "MC_witness_window": "NeverLbHitAtOtherTime"}
+# configurations TLC must REFUTE: non-vacuity witnesses (the situation an invariant is about is reachable) and negative
+# controls (a deliberately wrong model violates the property), per chain of configurations
+WITNESSES = {
+    "RingClientMC": {"MC_witness_stalehit": "NeverStaleHit", "MC_witness_refused": "NeverRefusedFill",
+                     "MC_witness_window": "NeverLbHitAtOtherTime"},
+    # RingCompare over the collection of topology records: only the exchange updates (UpdSwap) can show it
+    "RingClientMCb": {"MC_neg_aggcompare": "UnobservableFast"},
+    # ExcludedZones filter skipped on the fast path; an excluded instance in the store while a cache is filled
+    "RingClientExcl": {"MC_neg_exclfast": "ClientHoldsFiltered", "MC_witness_hidden": "NeverHiddenWhileCached"},
+}
 
 
 def _model_check(ctx, module, cfgs, out):
     try:
-        if module == "RingClientMC":
-            # non-vacuity: the situations the invariants are about (a cached subring with outdated states, a refused
-            # cache fill, a look-back entry valid at another query time) are reachable: TLC must find a "violation"
-            for cfg, inv in WITNESSES.items():
-                r = ctx.tlc("ringclient", module, cfg=cfg + ".cfg", timeout=_tmo(300), count=False, workers=2)
-                out.append(("witness:" + inv, r))
+        # non-vacuity: the situations the invariants are about (a cached subring with outdated states, a refused
+        # cache fill, a look-back entry valid at another query time, ...) are reachable and the negative controls are
+        # wrong: TLC must find a "violation"
+        for cfg, inv in WITNESSES.get(module, {}).items():
+            r = ctx.tlc("ringclient", module, cfg=cfg + ".cfg", timeout=_tmo(300), count=False, workers=2)
+            out.append(("witness:" + inv, r))
         for cfg in cfgs:
             r = ctx.tlc("ringclient", module, cfg=cfg + ".cfg", timeout=_tmo(1500 if ctx.tier == "thorough" else 400),
                         coverage=(ctx.tier == "thorough"), count=False,
@@ -149,10 +175,11 @@ def run(ctx):
                        "lastTopologyChange stamps of different updates differ (bubble clock advanced between updates)",
                        "instance tokens unique across instances; InstanceDesc.Versions not varied"]
     quick = ctx.tier == "quick"
-    mc_i, mc_i2, mc_p = [], [], []
+    mc_i, mc_i2, mc_p, mc_x = [], [], [], []
     threads = [threading.Thread(target=_model_check, args=(ctx, "RingClientMC", QUICK_I if quick else THOROUGH_I, mc_i)),
                threading.Thread(target=_model_check, args=(ctx, "RingClientMCb", QUICK_I2 if quick else THOROUGH_I2, mc_i2)),
-               threading.Thread(target=_model_check, args=(ctx, "PartitionClientMC", QUICK_P if quick else THOROUGH_P, mc_p))]
+               threading.Thread(target=_model_check, args=(ctx, "PartitionClientMC", QUICK_P if quick else THOROUGH_P, mc_p)),
+               threading.Thread(target=_model_check, args=(ctx, "RingClientExcl", QUICK_X if quick else THOROUGH_X, mc_x))]
     if os.environ.get("VERIF_C13_SKIP_MC"):   # development only (mutation runs): never gives exit 0
         threads = []
         ctx.inconclusive_note("model checking skipped (VERIF_C13_SKIP_MC)")
@@ -171,7 +198,7 @@ def run(ctx):
         for t in threads:
             t.join()
     mc_i = mc_i + mc_i2
-    for cfg, r in mc_i + mc_p:
+    for cfg, r in mc_i + mc_p + mc_x:
         if cfg == "exception":
             raise verif.Inconclusive("model checking failed: %r" % (r,))
         if cfg.startswith("witness:"):
@@ -218,16 +245,17 @@ def run(ctx):
             ev = _line(path, b["l"]) or {}
             reset, upd = _context(path, b["l"])
             why = set(b["why"])
-            kind = (upd or {}).get("kind", "-")
-            q = ev.get("q") or {"S": "shard", "PS": "pshard", "C": "counts", "PD": "pring", "U": "update", "CU": "update"}.get(ev.get("e"), ev.get("e"))
+            kind = ev.get("kind") if ev.get("e") == "PU" else (upd or {}).get("kind", "-")
+            q = ev.get("q") or {"S": "shard", "PS": "pshard", "C": "counts", "PD": "pring", "U": "update", "CU": "update",
+                                "PU": "delegate"}.get(ev.get("e"), ev.get("e"))
             if ev.get("e") in ("S", "PS"):
                 q += ":lookback" if ev.get("L") else ":plain"
                 q += ":hit" if ev.get("hit") else ":miss"
             if why & VIOLATION_CLASSES:
                 ctx.disagreement({"sig": "%s:%s after %s update" % (side, q, kind),
                                   "case": {"history": reset, "last_update": upd, "trace_line": b["l"], "event": ev, "failed_checks": sorted(why)},
-                                  "got": {k: ev.get(k) for k in ("lm", "lx", "lxfull", "lc", "lp", "lo", "ans", "ansfull") if k in ev},
-                                  "want": {k: ev.get(k) for k in ("fm", "fx", "fxfull", "fc", "fp", "fo", "before", "after", "beforefull", "afterfull") if k in ev}},
+                                  "got": {k: ev.get(k) for k in ("lm", "lx", "lxfull", "lc", "lp", "lo", "ans", "ansfull", "dn", "dop", "doo", "dnp", "dno") if k in ev},
+                                  "want": {k: ev.get(k) for k in ("fm", "fx", "fxfull", "fc", "fp", "fo", "before", "after", "beforefull", "afterfull", "parts", "owners") if k in ev}},
                                  "trace")
             else:
                 drift.append("%s line %d %s %s (after %s)" % (side, b["l"], q, sorted(why), kind))
